@@ -587,8 +587,9 @@ def run_batch_scenario(sc, chooser=None, seed=0, max_steps=40000):
     finally:
         ds.ShimThread.start = orig_shim_start
     if "res" not in st:
-        viol.append("C12: join_all_threads did not come back (%s)" % outcome)
-    else:
+        if outcome != "bound":       # a run cut at the step bound is an unfair schedule, not a hang
+            viol.append("C12: join_all_threads did not come back (%s)" % outcome)
+    if "res" in st:
         kind, val = st["res"]
         failed = [i for i, k in enumerate(sc["batch"]) if k == "fail"]
         for i, k in enumerate(sc["batch"]):
